@@ -229,10 +229,79 @@ pub struct Heap {
     pub vector_free_list: HeapFreeList,
 }
 
-/// the visitor trait reduced to the three methods the recycler unit uses
+// ---- payloads of the container kinds whose recycler arms are under contract (same models as units/heap/prelude.rs)
+#[derive(Clone)]
+pub struct SteelHashMap(pub Gc<Vec<(SteelVal, SteelVal)>>);
+impl SteelHashMap {
+    pub fn iter(&self) -> impl Iterator<Item = (&SteelVal, &SteelVal)> {
+        self.0.iter().map(|(k, v)| (k, v))
+    }
+}
+#[derive(Clone)]
+pub struct SteelHashSet(pub Gc<Vec<SteelVal>>);
+impl SteelHashSet {
+    pub fn iter(&self) -> core::slice::Iter<'_, SteelVal> {
+        self.0.iter()
+    }
+}
+#[derive(Clone)]
+pub struct SteelVector(pub Gc<Vec<SteelVal>>);
+impl SteelVector {
+    pub fn iter(&self) -> core::slice::Iter<'_, SteelVal> {
+        self.0.iter()
+    }
+}
+#[derive(Clone)]
+pub struct List<T>(pub Gc<Vec<T>>);
+impl<T: Clone> IntoIterator for List<T> {
+    type Item = T;
+    type IntoIter = std::vec::IntoIter<T>;
+    fn into_iter(self) -> Self::IntoIter {
+        (*self.0).clone().into_iter()
+    }
+}
+pub struct UserDefinedStruct {
+    pub fields: Vec<SteelVal>,
+}
+pub struct LazyStream {
+    pub initial_value: SteelVal,
+    pub stream_thunk: SteelVal,
+}
+pub struct Pair {
+    pub car: SteelVal,
+    pub cdr: SteelVal,
+}
+impl Pair {
+    pub fn car(&self) -> SteelVal {
+        self.car.clone()
+    }
+    pub fn cdr(&self) -> SteelVal {
+        self.cdr.clone()
+    }
+}
+pub mod lists {
+    pub use super::Pair;
+}
+pub struct MutContainer<T>(pub core::cell::RefCell<T>);
+impl<T> MutContainer<T> {
+    pub fn read(&self) -> core::cell::Ref<'_, T> {
+        self.0.borrow()
+    }
+}
+pub type GcMut<T> = Gc<MutContainer<T>>;
+
+/// the visitor trait reduced to the methods the recycler unit uses
 pub trait BreadthFirstSearchSteelValVisitor {
     type Output;
     fn visit_closure(&mut self, closure: Gc<ByteCodeLambda>) -> Self::Output;
     fn push_back(&mut self, value: SteelVal);
     fn visit(&mut self) -> Self::Output;
+    fn visit_hash_map(&mut self, hashmap: SteelHashMap) -> Self::Output;
+    fn visit_hash_set(&mut self, hashset: SteelHashSet) -> Self::Output;
+    fn visit_immutable_vector(&mut self, vector: SteelVector) -> Self::Output;
+    fn visit_list(&mut self, list: List<SteelVal>) -> Self::Output;
+    fn visit_steel_struct(&mut self, steel_struct: Gc<UserDefinedStruct>) -> Self::Output;
+    fn visit_stream(&mut self, stream: Gc<LazyStream>) -> Self::Output;
+    fn visit_pair(&mut self, pair: Gc<lists::Pair>) -> Self::Output;
+    fn visit_boxed_value(&mut self, boxed_value: GcMut<SteelVal>) -> Self::Output;
 }
